@@ -138,7 +138,11 @@ def rule_copy(ctx):
                f"{fn.name}: the copy loop does not write exactly the block it read, once, on every iteration ({why})", construct=f"copy:{fn.name}:{why}")
     if n_byte < 4:
         ctx.floor_errors.append(f"rule=C01.COPY: {n_byte} byte-moving loops (floor 4)")
-    # listing loops: one write per listed entry; the only accepted skip is `if not exists(entry): continue`
+
+
+def rule_listing_loops(ctx, rule="C07.ALL"):
+    """server listing loops (LIST/MLSD workers): one line per listed entry; the only accepted skip is `if not exists(entry): continue`"""
+    p = ctx.p
     n_list = 0
     for fn, lp, side in _loops(p):
         if is_iter_by_block(loop_iter(p, fn, lp)) or side != "server":
@@ -167,10 +171,10 @@ def rule_copy(ctx):
                 deps = _deps(p, a, lp, fn)
                 if var not in deps:
                     ok, why = False, "the line written does not depend on the listed entry"
-        ctx.ob("C01.COPY", lp, f"{p.qualname(fn)}: one line is written per listed entry", ok,
+        ctx.ob(rule, lp, f"{p.qualname(fn)}: one line is written per listed entry", ok,
                f"{fn.name}: the listing loop does not emit exactly one line per listed entry ({why})", construct=f"listing:{fn.name}:{why}")
     if n_list < 2:
-        ctx.floor_errors.append(f"rule=C01.COPY: {n_list} listing loops (floor 2)")
+        ctx.floor_errors.append(f"rule={rule}: {n_list} listing loops (floor 2)")
 
 
 def _is_exists_test(t, var):
@@ -281,11 +285,15 @@ def rule_eof(ctx):
                f"{cls}.iter_by_block does not iterate `self.read(count)` with the caller's block size", construct=f"iter_by_block:{cls}")
 
 
-def rule_thru(ctx):
+def rule_thru(ctx, only=None):
     p = ctx.p
     ctx.rule("C01.THRU", "I/O wrappers forward the data argument and return the inner result unmodified; count is forwarded")
 
     def check_forward(cls, name, inner_pred, data_param=None, count_param=None):
+        if only is not None and name not in only:
+            return
+        if only is None and name == "readline":
+            return   # line reads are not part of byte transfers (C07/C19 look at them)
         fn = p.method(cls, name)
         calls = [c for c in walk_no_nested(fn) if isinstance(c, ast.Call) and inner_pred(c)]
         label = f"{cls}.{name}"
@@ -335,6 +343,8 @@ def rule_thru(ctx):
     check_forward("ThrottleStreamIO", "read", reader("read", ("super()",)), count_param="count")
     check_forward("ThrottleStreamIO", "readline", reader("readline", ("super()",)))
     check_forward("ThrottleStreamIO", "write", reader("write", ("super()",)), data_param="data")
+    if only is not None:
+        return
     # StreamIO.write drains after writing
     w = p.method("StreamIO", "write")
     order = [c.func.attr for c in sorted([c for c in walk_no_nested(w) if isinstance(c, ast.Call) and isinstance(c.func, ast.Attribute) and c.func.attr in ("write", "drain")], key=lambda c: (c.lineno, c.col_offset))]
@@ -375,7 +385,7 @@ def rule_thru(ctx):
     op = [s for s in aen.body if isinstance(s, ast.Assign) and last_attr(s.targets[0]) == "file"]
     ok = bool(op) and isinstance(op[0].value, ast.Await) and src(op[0].value.value) == "self.pathio._open(*self.args, **self.kwargs)"
     ctx.ob("C01.THRU", aen, "AsyncPathIOContext opens with exactly the caller's arguments", ok, "AsyncPathIOContext does not open the file with the caller's arguments", construct="thru:AsyncPathIOContext.open")
-    ctx.floor("C01.THRU", 20, "forwarders")
+    ctx.floor("C01.THRU", 18, "forwarders")
 
 
 def rule_seek(ctx):
@@ -432,6 +442,9 @@ def rule_seek(ctx):
             mode_vals = _mode_on_path(p, mode, ev, w, h, off_truth)
             verdicts.setdefault(off_truth, []).append((mode_vals, seeks, seek_after_loop, off_expr))
         if True not in verdicts and None in verdicts and not any(s for m, s, a, o in verdicts[None]):
+            handed = any(_is_offset_expr(p, x, h, w) for c_ in opens for x in list(c_.args) + [k.value for k in c_.keywords] if isinstance(x, (ast.Name, ast.Attribute)))
+            if handed:
+                raise Inconclusive(f"C01.SEEK: {w.name} hands the restart offset to the backend's open(); positioning happens outside the worker, a shape this rule does not follow")
             ctx.fail("C01.SEEK", w, f"{w.name}: transfer consumes a restart offset but never seeks", construct=f"seek:{w.name}:none")
             continue
         for truth, items in verdicts.items():
